@@ -133,13 +133,17 @@ def split_by_job(stderr):
 
 
 def crash_kind(text):
-    """A process that died inside a job: what killed it."""
-    if "fatal error: concurrent map" in text:
-        m = re.search(r"fatal error: (concurrent map[^\n]*)", text)
-        return "crash/" + m.group(1).strip().replace(" ", "-")
-    m = re.search(r"fatal error: ([^\n]*)", text)
-    if m:
-        return "crash/" + m.group(1).strip().replace(" ", "-")[:60]
+    """A process that died inside a job: what killed it.  The runtime's own detector of unsynchronised map
+    access ("fatal error: concurrent map iteration and map write") prints while the race detector may be
+    printing a report on the same stream, so the two texts can be interleaved."""
+    if "fatal error:" in text:
+        m = re.search(r"concurrent map (iteration and map write|read and map write|writes)", text)
+        if m:
+            return "crash/concurrent-map-" + m.group(1).replace(" ", "-")
+        m = re.search(r"fatal error: ([^\n=]+)", text)
+        if m:
+            return "crash/" + m.group(1).strip().replace(" ", "-")[:60]
+        return "crash/fatal-error"
     m = re.search(r"^panic: ([^\n]*)", text, re.M)
     if m:
         return "crash/panic"
